@@ -4,8 +4,8 @@
    stdout:
      <hex T> TAB <model CAST form> TAB <model :: form> TAB <spec>
    model form : hex of the text after "Literal " | ERR | OOF:<reason> | FUEL
-   spec       : "-" when no tree was given, else  <hex of shown t>;wf=<0|1>;ok=<0|1>;toks=<0|1>
-                (wf = wf_ty, ok = code_ok, toks = the lexer's tokens equal print_ty t) *)
+   spec       : "-" when no tree was given, else  <hex of shown t>;wf=<0|1>;toks=<0|1>
+                (wf = wf_ty, toks = the lexer's tokens equal print_ty t) *)
 open Types_ex
 
 let rec pos_of_int (i : int) : positive =
@@ -135,9 +135,9 @@ let () =
               | tree :: _ when tree <> "" && tree <> "-" ->
                   let t = parse_tree tree in
                   let lexed = drop_eof (strip_trivia ts) in
-                  Printf.sprintf "%s;wf=%s;ok=%s;toks=%s"
+                  Printf.sprintf "%s;wf=%s;toks=%s"
                     (hex (string_of_bytes (shown t)))
-                    (b01 (wf_ty t)) (b01 (code_ok t)) (b01 (lexed = print_ty t))
+                    (b01 (wf_ty t)) (b01 (lexed = print_ty t))
               | _ -> "-"
             in
             Printf.printf "%s\t%s\t%s\t%s\n" h a b spec
